@@ -320,6 +320,9 @@ def apply_contract(run, st, name, args, ins, bindings=None):
     gview = run.mode == "group" and c.mode != "group" and (c.gensures or c.grequires)
     c_requires = c.grequires if gview else c.requires
     c_ensures = c.gensures if gview else c.ensures
+    if run.c.opts.get("view") == "scalar" and c.sensures and c.mode != "ring":
+        c_requires, c_ensures = c.srequires, c.sensures
+        run.V.bridges_used.add(cname + " (scalar view)")
     if gview:
         run.V.bridges_used.add(cname)
     for i, (lab, ast, txt) in enumerate(c_requires):
